@@ -23,7 +23,7 @@ import (
 
 func init() {
 	Register(&Rule{ID: "R-FMT-16", Props: []string{"C02"}, Floor: 3,
-		Doc:      "every call of EncodeView (lib/query, lib/action, lib/cli) encodes either into a table file obtained from (*file.Handler).FileForUpdate (discarded when the commit fails) or into a bytes.Buffer / strings.Builder allocated by the calling function (followed through a writer parameter to the arguments of the static callers, two levels) — never directly into a session stream (stdout, the --out file), which would keep the rows that were flushed before an encoder error",
+		Doc:      "every call of EncodeView (lib/query, lib/action, lib/cli) encodes either into a table file obtained from (*file.Handler).FileForUpdate (discarded when the commit fails) or into a bytes.Buffer / strings.Builder allocated by the calling function (a writer parameter is followed to the argument of each static call site — one obligation per calling context —, and further through the arguments of the static callers, two levels) — never directly into a session stream (stdout, the --out file), which would keep the rows that were flushed before an encoder error",
 		Controls: []string{"CtlEncodeStraightIntoOutFile"},
 		Run:      ruleFmt16})
 }
@@ -94,17 +94,23 @@ func ruleFmt16(c *Ctx) {
 				continue
 			}
 			c.Touch(fn)
-			perFn[fn]++
-			key := c.KeyAt(fn, fmt.Sprintf("EncodeView #%d writes into a table file or a buffer of its own", perFn[fn]))
-			pos := c.Pos(call.(ssa.Instruction))
-			bad, und := classify(fn, args[1], 2)
-			switch {
-			case bad != "":
-				c.Bad(key, pos, bad+": the encoders flush while they convert, so when a later cell cannot be spelled in the format (or the run is cancelled) the stream keeps the rows written so far — a partial result in the --out file / on stdout, although the statement failed")
-			case und != "":
-				c.Unknown(key, pos, "cannot-analyse: "+und)
-			default:
-				c.Ok(key, pos, "the destination is discarded or never written when encoding fails (table file of the commit, or a local buffer written out afterwards)")
+			// a writer that is a parameter of a private helper is decided by the callers: one
+			// obligation per calling context, in the function that hands the destination over
+			for _, ctx := range fxLift(c, args[1], fn, 2) {
+				host := ctx.Fn
+				c.Touch(host)
+				perFn[host]++
+				key := c.KeyAt(host, fmt.Sprintf("EncodeView #%d writes into a table file or a buffer of its own", perFn[host]))
+				pos := c.Pos(ctx.At(call.(ssa.Instruction)))
+				bad, und := classify(host, ctx.V, 2)
+				switch {
+				case bad != "":
+					c.Bad(key, pos, bad+": the encoders flush while they convert, so when a later cell cannot be spelled in the format (or the run is cancelled) the stream keeps the rows written so far — a partial result in the --out file / on stdout, although the statement failed")
+				case und != "":
+					c.Unknown(key, pos, "cannot-analyse: "+und)
+				default:
+					c.Ok(key, pos, "the destination is discarded or never written when encoding fails (table file of the commit, or a local buffer written out afterwards)")
+				}
 			}
 		}
 	}
